@@ -73,11 +73,11 @@ def std_dataset(rng, **kw):
         D.groups = [g_ for p_, l_, _ in D.families for g_ in gen.encode(D.T, D.naming, p_, l_)]
         D.base_groups = list(D.groups)
         D.meta['twin_names'] = True
-    if D.naming == 'own' and not D.meta.get('twin_names') and not D.meta.get('species_split') and not D.meta.get('oma_style') and rng.random() < 0.08:
+    if D.naming == 'own' and not D.meta.get('twin_names') and not D.meta.get('species_split') and not D.meta.get('oma_style') and rng.random() < 0.15:
         # names made of a few tokens joined by '_' or '/': concatenations of two names coincide for different pairs of genomes
         # ('A' + '_' + 'B_C' = 'A_B' + '_' + 'C'; r13-C06a / C07b / C17a: caches keyed by joined names)
         import itertools as _it
-        sep_ = rng.choice(['_', '/'])
+        sep_ = rng.choice(['_', '/', '/'])
         pool_ = [sep_.join(c_) for n_ in (1, 2, 3, 4) for c_ in _it.product(['A', 'B'], repeat=n_)]
         nodes_ = list(gen.paths(D.T))
         if len(nodes_) <= len(pool_):
